@@ -254,9 +254,8 @@ def check_walks(rep, fm):
                           "sub-directory is opened as a PEL file outside the per-file barrier" % e.data[0], node=e.node)
 
 
-def check_decoder_prints(rep, prog):
+def check_decoder_prints(rep, prog, rule="C09.R2.stdout-discipline"):
     """who-may-print: stdout writes outside the CLI reporting functions"""
-    rule = "C09.R2.stdout-discipline"
     # evidence of reachability / deadness from interpreting every section decoder
     from .c01 import run_sectionfun, DISPATCH, HEXDUMP_ONLY
     executed_nodes = set()
